@@ -57,8 +57,8 @@ static void check_all()
 
 extern "C" void c17_registry()
 {
+  forest::all_forests.reserve(16);      // capacity first: the registry vector is never reallocated inside the history (its growth is libstdc++ code)
   forest::initStatics();
-  forest::all_forests.reserve(16);      // no reallocation of the registry vector inside the history (its growth is libstdc++ code)
   dom = (domain*) calloc(1, sizeof(domain)); dom->nVars = 1;
   for (int j = 0; j < NF; j++) { alive[j] = false; FS[j] = nullptr; }
   for (int i = 0; i < NE; i++) { made[i] = false; owner[i] = -1; dd_edge* p = (dd_edge*) calloc(1, sizeof(dd_edge)); p->node = 0; ebuf[i] = p; }   // (the field write makes the allocation typed for the translator)
